@@ -1106,6 +1106,17 @@ class Interp:
             if name:
                 env[name] = b
             return
+        # D[a + k, b + k] = vals[k] (two index arrays walking a diagonal together): a diagonal block
+        if len(idx) == 2 and all(it[0] == "fancy" for it in idx) and isinstance(base, (Arr, Blocks)) \
+                and (isinstance(base, Blocks) or (base.ndim == 2 and all(sp.concrete is None for sp, _ in base.axes))):
+            b = self._paired_diag_store(base, idx, v, st)
+            if b is not None:
+                self.blocks[b.uid] = b
+                if name:
+                    env[name] = b
+                return
+        if isinstance(base, Blocks):
+            base.opaque_stores = getattr(base, "opaque_stores", []) + [st]
         # column / masked / element stores on an array: rebuild the generic element
         if isinstance(base, Arr):
             nv = self._store_into_arr(base, idx, v, st)
@@ -1116,6 +1127,43 @@ class Interp:
         if name:
             env[name] = self.unknown("subscript-store", st, (generic_elem(base), generic_elem(v)))
         return
+
+    def _paired_diag_store(self, base, idx, v: Val, st):
+        ra, ca = idx[0][1], idx[1][1]
+        if not (isinstance(ra, Arr) and isinstance(ca, Arr) and ra.ndim == 1 and ca.ndim == 1):
+            return None
+        (rsp, riv), (csp, civ) = ra.axes[0], ca.axes[0]
+        if not rsp.same_size(csp):
+            return None
+        a = sym.sub(ra.elem, sym.IV(riv))
+        c = sym.sub(ca.elem, sym.IV(civ))
+        if riv in sym.free_ivars(a) or civ in sym.free_ivars(c) or sym.free_ivars(a) or sym.free_ivars(c):
+            return None
+        n = rsp.size
+        if isinstance(v, Sc) and v.e is not None:
+            on = v.e
+        else:
+            va = arrays.to_arr(v) if not isinstance(v, Arr) else v
+            if not (isinstance(va, Arr) and va.ndim == 1 and va.axes[0][0].same_size(rsp)):
+                return None
+            on = sym.subst_ivar(va.elem, va.axes[0][1], (riv, 0))
+        if isinstance(base, Arr):
+            b = Blocks((base.axes[0][0].size, base.axes[1][0].size), base.elem, [], base.uid)
+        else:
+            b = base
+        r0, r1, c0, c1 = a, sym.add(a, n), c, sym.add(c, n)
+
+        def le(x, y):  # x <= y for every non-negative value of the sizes
+            terms, const = sym.lin_parts(sym.sub(y, x))
+            return const >= 0 and all(k >= 0 and t[0] == "size" for t, k in terms.items())
+        off = b.base
+        for s0 in b.stores:
+            if not (le(s0["r1"], r0) or le(r1, s0["r0"]) or le(s0["c1"], c0) or le(c1, s0["c0"])):
+                off = sym.Opq("earlier-contents", (), fresh("u"))  # the cells off the walked diagonal keep what was there
+        if sym.free_ivars(off):
+            return None
+        b.stores.append(dict(r0=r0, r1=r1, c0=c0, c1=c1, val=DiagMat(n, riv, on, off), node=st, vshape=(n, n)))
+        return b
 
     def _store_into_arr(self, base: Arr, idx, v: Val, st) -> Optional[Val]:
         n_real = len([i for i in idx if i[0] != "new"])
@@ -1249,7 +1297,7 @@ class Interp:
             if isinstance(v, NoneV):
                 out.append(("new",))
             elif isinstance(v, StrV):
-                out.append(("str", v.s))
+                out.append(("str", v.s, v.arg))
             elif isinstance(v, Sc) and v.e is None:
                 out.append(("new",))
             elif isinstance(v, Sc):
@@ -1480,6 +1528,11 @@ class Interp:
             fr = self.frames[-1]
             return FuncV("lambda", n, closure=env)
         if isinstance(n, ast.JoinedStr):
+            if len(n.values) == 1 and isinstance(n.values[0], ast.FormattedValue) and n.values[0].format_spec is None \
+                    and n.values[0].conversion in (-1, 115):
+                v = self.eval(n.values[0].value, env)
+                if isinstance(v, Sc) and v.e is not None:
+                    return StrV("<f-string>", arg=v.e)
             return StrV("<f-string>")
         if isinstance(n, ast.Set):
             return Bag(sym.Choice([generic_elem(self.eval(e, env)) for e in n.elts]) if n.elts else sym.Opq("empty", ()),
@@ -1701,7 +1754,10 @@ class Interp:
                 return self.call_function(m, [base, self._idx_val(idx)], {}, node)
         if isinstance(base, ObjV) and base.tag in ("hk_matching",):
             k = idx[0]
-            return Sc(sym.Opq("hk_partner", base.attrs.get("deps", ()) , None))
+            key = k[2] if (k[0] == "str" and len(k) > 2 and k[2] is not None) else (k[1] if k[0] == "expr" else None)
+            if key is None:
+                key = sym.Opq("unknown-key", (), fresh("k"))
+            return Sc(sym.Opq("hk_partner", tuple(base.attrs.get("deps", ())) + (key,), None))
         if any(it[0] == "str" for it in idx):
             return self.unknown("string-index", node)
         r = arrays.index(base, idx, self)
